@@ -115,6 +115,32 @@ net('detached first output', {'a': 3, 'b0': 1, 'b1': 1, 'b2': 1, 'r': 1, 'o': 1}
      ('and', lambda s, W: And2(s, 'and', W['r'], W['b2'], W['o']))], ['a'])
 
 
+class _Hs(py4hw.Interface):
+    """handshake interface built over wires of the netlist: data source->sink, ready sink->source (the back channel)"""
+    def __init__(self, parent, W):
+        super().__init__(parent, 'port')
+        self.sourceToSink.append(['data', W['data']])
+        self.sinkToSource.append(['ready', W['ready']])
+
+
+class _HsSink(py4hw.Logic):
+    """stateless sink: ready = data is odd, driven back over the sink-to-source wire"""
+    def __init__(self, parent, name, W):
+        super().__init__(parent, name)
+        self.addInterfaceSink('trg', _Hs(parent, W))
+        self.data, self.ready = W['data'], W['ready']
+
+    def propagate(self):
+        self.ready.put(self.data.get() & 1)
+
+
+net('interface back channel', {'a': 3, 'data': 3, 'ready': 1, 'busy': 1, 'o': 1},
+    [('source', lambda s, W: Not(s, 'source', W['a'], W['data'])),          # a plain driver of the data wire (the source end reads ready)
+     ('sink', lambda s, W: _HsSink(s, 'sink', W)),
+     ('busy', lambda s, W: Not(s, 'busy', W['ready'], W['busy'])),
+     ('o', lambda s, W: And2(s, 'o', W['busy'], W['ready'], W['o']))], ['a'])
+
+
 class TracedXor(py4hw.Logic):
     """a stateless gate that also has a clock() hook (statistics only): both propagatable and clockable"""
     def __init__(self, parent, name, a, b, r):
@@ -303,10 +329,14 @@ def order_task(p, cfg, rec):
     name, order, late = cfg['net'], cfg['order'], cfg.get('late', 0)
     nest = cfg.get('nest', False)
     n = len(NETS[name][1])
-    base, vars_ = run_net(name, list(range(n)), 0, rec=rec)
-    snaps, v2 = run_net(name, order, late, rec=rec, nest=nest)
-    vars_.update(v2)
-    bmap = {lab: vals for lab, vals, _s, _sim in base}
+    sym_failed = None
+    try:
+        base, vars_ = run_net(name, list(range(n)), 0, rec=rec)
+        snaps, v2 = run_net(name, order, late, rec=rec, nest=nest)
+        vars_.update(v2)
+        bmap = {lab: vals for lab, vals, _s, _sim in base}
+    except (core.SymbolicPathError, core.Unsupported) as e:
+        sym_failed = e
 
     def concrete_fix(values):
         sn, _ = run_net(name, order, late, values=values, nest=nest)
@@ -332,6 +362,34 @@ def order_task(p, cfg, rec):
                 if lab in am and vals[k] != am[lab][k]:
                     return {'point': lab, 'wire': k, 'this_order': vals[k], 'canonical_order': am[lab][k], 'order': order}
         return None
+    if sym_failed is not None:
+        # the symbolic run could not be set up (e.g. a leaf writes a wire the library registered as one of its inputs): the two
+        # clauses are then executed concretely over a seeded set of input vectors (fixpoint by recomputation, canonical order)
+        import random as _r
+        rnd = _r.Random(name + str(order))
+        ins = NETS[name][2]
+        W0 = NETS[name][0]
+        bad = None
+        tried = 0
+        for k in range(16):
+            values = {}
+            for tag in ('p0_', 'p1_', 'p2_'):
+                for nme in ins:
+                    w_ = W0[nme][1] if isinstance(W0[nme], tuple) else W0[nme]
+                    values[tag + nme] = rnd.getrandbits(w_) if k else (1 << w_) - 1
+            for leafname, _ in NETS[name][1]:
+                values['s_' + leafname] = rnd.getrandbits(3)
+            tried += 1
+            try:
+                bad = concrete_fix(values) or concrete_cmp(values)
+            except Exception as ex:
+                bad = {'exception': repr(ex)}
+            if bad:
+                bad['inputs'] = values
+                break
+        p.structural('symbolic run not possible (%s): fixpoint and canonical-order clauses hold on %d concrete input sequences' % (str(sym_failed)[:80], tried),
+                     bad is None, detail=bad)
+        return
     for lab, vals, s, sim in snaps:
         p.res['states'] += 1
         fc = fixpoint_conds(s)
